@@ -14,10 +14,18 @@
 //                                          nni_pollable_getfd wrapped, so that a complete nni_pollable_clear (resp. raise) of
 //                                          "another thread" runs exactly between that load and the write that follows it.
 //                                          observation: window fd=<0|1> flag=<0|1> [after-clear fd=<0|1>]
+//   api                                    the buffer API on real sockets (PAIRv0 over inproc, real threads): nng_send / nng_recv
+//                                          with NNG_FLAG_NONBLOCK on a socket that cannot send / has nothing (NNG_EAGAIN, nothing
+//                                          leaked: LeakSanitizer at exit), with room (0), full again (NNG_EAGAIN); then end to end:
+//                                          poll(2) with a 2 s timeout on the peer's receive descriptor, after which the NONBLOCK
+//                                          nng_recv must succeed and the descriptor must drop.  The longest NONBLOCK call is
+//                                          reported (evidence only).
+//                                          observation: api send0=<rv> recv0=<rv> send1=<rv> send2=<rv> polled=<0|1> recv1=<rv> len=<n> fd_after=<0|1> max_nb_us=<t>
 //   mark <k>
 #define _GNU_SOURCE
 #include <poll.h>
 #include <pthread.h>
+#include <time.h>
 
 #include "core/nng_impl.h"
 #include "wb_common.h"
@@ -60,6 +68,53 @@ show(void)
 		printf("fd=%d\n", readable(fd));
 	}
 	fflush(stdout);
+}
+
+static long long
+now_us(void)
+{
+	struct timespec ts;
+	clock_gettime(CLOCK_MONOTONIC, &ts);
+	return (long long) ts.tv_sec * 1000000LL + ts.tv_nsec / 1000;
+}
+
+static void
+api_test(void)
+{
+	nng_socket a, b;
+	long long  mx = 0, t;
+	char       buf[16] = "0123456789";
+	size_t     sz;
+	int        send0, recv0, send1, send2, recv1, polled = 0, fdr = -1, after = -1;
+	nng_pair0_open(&a);
+	nng_pair0_open(&b);
+#define TIMED(x)              \
+	do {                  \
+		t = now_us(); \
+		x;            \
+		t = now_us() - t; \
+		if (t > mx) mx = t; \
+	} while (0)
+	TIMED(send0 = nng_send(a, buf, 10, NNG_FLAG_NONBLOCK));
+	sz = sizeof(buf);
+	TIMED(recv0 = nng_recv(a, buf, &sz, NNG_FLAG_NONBLOCK));
+	nng_socket_set_int(a, NNG_OPT_SENDBUF, 1);
+	TIMED(send1 = nng_send(a, "abcdefghij", 10, NNG_FLAG_NONBLOCK));
+	TIMED(send2 = nng_send(a, "klmnopqrst", 10, NNG_FLAG_NONBLOCK));
+	nng_listen(a, "inproc://c15api", NULL, 0);
+	nng_dial(b, "inproc://c15api", NULL, 0);
+	if (nng_socket_get_recv_poll_fd(b, &fdr) == 0) {
+		struct pollfd pf = { .fd = fdr, .events = POLLIN };
+		polled = (poll(&pf, 1, 2000) == 1 && (pf.revents & POLLIN)) ? 1 : 0;
+	}
+	sz = sizeof(buf);
+	TIMED(recv1 = nng_recv(b, buf, &sz, NNG_FLAG_NONBLOCK));
+	if (fdr >= 0) after = readable(fdr);
+	printf("api send0=%d recv0=%d send1=%d send2=%d polled=%d recv1=%d len=%d fd_after=%d max_nb_us=%lld\n", send0, recv0, send1, send2,
+	    polled, recv1, recv1 == 0 ? (int) sz : -1, after, mx);
+	fflush(stdout);
+	nng_socket_close(a);
+	nng_socket_close(b);
 }
 
 static void
@@ -164,6 +219,8 @@ main(void)
 			show();
 		} else if (strcmp(op, "poll") == 0) {
 			show();
+		} else if (strcmp(op, "api") == 0) {
+			api_test();
 		} else if (strcmp(op, "window") == 0) {
 			char what[32] = "";
 			sscanf(line, "%*s %31s", what);
